@@ -148,6 +148,12 @@ def subjects(tier):
       "o.set_userdata('ud', [1], cloneable=True)")
   add('hyper/oneof', "o = pg.oneof([pg.Dict(a=1), 2, [3]])")
   add('hyper/nested', "o = pg.Dict(a=pg.oneof([pg.oneof([1, 2]), pg.Dict(x=pg.floatv(0.0, 1.0))]), b=pg.manyof(2, [1, 2, pg.Dict(y=3)]))")
+  add('ref/partial-flag', "o = pg.Dict(r=pg.Ref(SHARED, allow_partial=True), l=[pg.Ref([1], allow_partial=True)])")
+  add('hyper/partial', "o = pg.oneof([TY.partial(), 1], allow_partial=True)")
+  # The same values sealed as a whole after construction.
+  for label, src in list(S):
+    if label.split('/')[0] in ('object', 'ref', 'functor', 'dna', 'hyper') and 'sealed' not in label:
+      add(label + '+sealed-after', src + '\no.seal()')
   return S
 
 
